@@ -7,6 +7,12 @@ Sub-oracles
                       generated shape and every spatial grid size M in {40,50,60,80,120}
   fixed-shape-kept    multiplier=0 returns the wall parameters it was given
   fixed-convergence   err(2M) <= max(err(M)/4, floor)           (pairs 40->80, 60->120)
+  step-consistency    one uniform-plasma step with multiplier in {0.5, 1} from the generated (non-optimal)
+                      shape, grid mapped to the INCOMING shape as the solver does: the pressure returned
+                      together with the NEW shape equals the pressure of that new shape evaluated through
+                      the multiplier=0 entry point on the same grid (identical arithmetic -> rounding)
+  step-pressure       the same step: pressure == V(phi_low,T) - V(phi_high,T) for the returned shape, with the
+                      resolution of the returned shape on the grid mapped to the incoming one
   public-pressure     EOM.wallPressure(v_w, wallParams) on Bag1/Bag2 (field part T-independent)
                       == V0(phi_low) - V0(phi_high) for v_w on each branch
   profile-derivative  EOM.wallProfile: returned dphi/dz == 6th-order central difference of the
@@ -27,13 +33,15 @@ ENGINE = "hypothesis @given (one manager set-up amortised over several shapes x 
 RULE = (
     "fixed: zoo potential (Z2x2, Cubic1, Cubic1T), temperature anywhere both phases exist, 6 tanh shapes "
     "(widths [1,10]/T, ratio <= 3, |offset| <= 2; a third of them on the rim ratio=3 or |offset|=2), each "
-    "evaluated at M in {40,50,60,80,120}.  public: Bag1/Bag2 through WallGoManager and EOM.wallPressure at "
+    "evaluated at M in {40,50,60,80,120}; the first 3 shapes of a case are also used as non-optimal starting "
+    "shapes of one iteration step with multiplier 0.5 or 1 at M in {40,80} (grid mapped to the incoming shape)."
+    "  public: Bag1/Bag2 through WallGoManager and EOM.wallPressure at "
     "one v_w per branch.  profile: wallProfile at generated z, widths, offsets, vevs.  Non-trivial = shape "
     "not symmetric (offset != 0 or unequal widths) and |dV| > 1e-6 T^4 (fixed/public); any z within 6 widths "
     "of the wall (profile).  Distinct by canonical JSON of the case."
 )
 BUDGET = {
-    "quick": {"cases": 352, "shrink": False, "time_cap_s": 600},
+    "quick": {"cases": 320, "shrink": False, "time_cap_s": 600},
     "thorough": {"cases": 6000, "shrink": False, "time_cap_s": 3000},
 }
 EPS = 2.0 ** -52
@@ -57,6 +65,9 @@ ENV_A = 4.0
 ENV_B = 0.5
 TAIL_C = 1e-10
 TAIL_P = 4.0
+ENV_A_STEP = 4.6
+STEP_GRID_SIZES = (40, 80)
+STEP_SHAPES = 3
 KROUND = 16.0
 TOLERANCES = {
     "envelope_log10_err_over_S": f"{ENV_A} - {ENV_B} * eta  (measured 3.27 - 0.5 eta over 6 seeds, x5)",
@@ -66,6 +77,20 @@ TOLERANCES = {
     "convergence": "err(2M) <= max(err(M)/4, floor(2M))",
     "profile_fd": "h = 0.03 widths; 2 * 272/140 h^6 + 8 eps * 1.84 max|phi| / (h |dphi|)",
     "shape_kept": "exact (multiplier = 0)",
+    "step_consistency": "|p_step - p_0(returned shape, same grid)| <= rounding_floor (the two calls perform the "
+                        "same arithmetic on a correct tree; no envelope involved)",
+    "step_pressure": "asserted in absolute terms only where the returned wall lies inside the wall region of the "
+                     "grid mapped to the incoming shape (L_cover <= L_grid_used, L_cover = farthest outer edge of "
+                     "the returned wall from the grid's wall mid-point), the returned shape is in the property's "
+                     "domain (ratio <= 3, |offset| <= 2) and the envelope is not vacuous (eta_eff > 9.2; an "
+                     "unresolved wall can miss by more than S): 10^(4.6 - 0.5 eta_eff) + tail + floor, "
+                     "eta_eff = M min(returned widths)/L_grid_used; re-measured on the unchanged tree, Hypothesis "
+                     "seeds 1,2,3,5,8,13, M in {40,60,120}, multiplier in {0.5,1}, 6066 steps of which 981 in this "
+                     "regime: max log10(err/(10^(4.0-0.5 eta_eff)+tail+floor)) = -0.13, so ENV_A_STEP = 4.0+0.6 (x5.4). "
+                     "Outside that regime (returned wall wider than / shifted out of the grid's wall region) the "
+                     "quadrature degrades algebraically (measured err/S up to 1e-5 at L_cover/L_grid 1.5-2, O(1) "
+                     "beyond 3, independent of the defect class) and only step_consistency is asserted, with the "
+                     "measured error recorded in info.",
 }
 ASSUMPTIONS = [
     "The identity is asserted relative to S = max V - min V along the tanh path (the size of the pieces of "
@@ -73,6 +98,11 @@ ASSUMPTIONS = [
     "'Resolved by the grid' is quantified by eta = M min(widths)/L_grid; the tolerance is the measured "
     "envelope in eta (vacuous below eta ~ 8, rounding floor above eta ~ 30) and is always paired with the "
     "convergence relation.",
+    "Step route (multiplier 0.5, 1): the identity for the returned shape is split into (a) consistency of the "
+    "returned pressure with the multiplier=0 evaluation of the returned shape on the same grid (rounding) and "
+    "(b) the resolution error of that shape on that grid, which is asserted against the envelope only where "
+    "the returned wall stays inside the grid's wall region; steps whose result sits on the solver's clipping "
+    "bounds (the multiplier=0 call would clip it) are labelled, not compared.",
     "vevLowT/vevHighT handed to _intermediatePressureResults are the exact closed-form minima at the "
     "constant temperature (required for the total-derivative identity).",
     "Public route: asserted only if the wall parameters returned by wallPressure are inside the property's "
@@ -115,7 +145,7 @@ def st_shape(draw, nf):
         if draw(st.sampled_from([False] * 4 + [True])):  # the solver keeps offsets[0] = 0; the property does not
             off0 = round(draw(st.floats(-1.0, 1.0)), 3)
         offs = [off0, round(off, 4)]
-    return {"w": widths, "off": offs}
+    return {"w": widths, "off": offs, "mult": draw(st.sampled_from([1.0, 0.5, 1.0]))}
 
 
 @st.composite
@@ -273,6 +303,74 @@ def _eom_for(manager, M):
     return manager.setupWallSolver(WallGo.WallSolverSettings(**SETTINGS_KW)).eom
 
 
+def _check_step(v, eoms, case, shape, fam, model, cf, vl, vh, T, exact, widths, offs):
+    """One uniform-plasma iteration step with multiplier > 0 from the generated shape."""
+    import WallGo
+
+    mult = float(shape.get("mult", 1.0))
+    for M in STEP_GRID_SIZES:
+        eom = eoms.get(M)
+        if eom is None:
+            continue
+        Tn = float(eom.thermo.Tnucl)
+        vmid = -0.5
+        wp_in = WallGo.WallParams(widths=widths.copy(), offsets=offs.copy())
+        eom._updateGrid(wp_in, vmid)
+        n = len(eom.grid.xiValues)
+        kw = dict(temperatureProfileInput=np.full(n, T), velocityProfileInput=np.full(n, vmid))
+        res = eom._intermediatePressureResults(wp_in, WallGo.Fields(vl), WallGo.Fields(vh), -1.0, 1.0, vmid,
+                                               zero_boltzmann(eom), T, T, multiplier=mult, **kw)
+        p_step = float(res[0])
+        w2 = np.array(res[1].widths, dtype=float)
+        o2 = np.array(res[1].offsets, dtype=float)
+        moved = float(np.max(np.abs(w2 / widths - 1))) + float(np.max(np.abs(o2 - offs)))
+        Lu, cu = float(eom.grid.wallThickness), float(eom.grid.wallCenter)
+        mid = cu + Lu * math.log(2) / 2
+        Lcov = max(float(np.max((1 - o2) * w2)) - mid, mid - float(np.min((-1 - o2) * w2)))
+        rc = max(Lcov, Lu) / Lu
+        S, Vabs = path_scale(cf, vl, vh, w2, o2, T)
+        floor = rounding_floor(model, cf, vl, vh, Vabs, S, M)
+        err = abs(p_step - exact)
+        cls = f"family={fam} multiplier={mult:g} M={M}"
+        v.label(f"step:mult={mult:g}", "step:moved>10%" if moved > 0.1 else "step:moved<=10%",
+                "step:cover<=1" if rc <= 1.0 else ("step:cover<=2" if rc <= 2 else "step:cover>2"))
+        v.info.setdefault("step", []).append([M, mult, round(rc, 2), float(err / S)])
+        # (a) consistency with the multiplier=0 evaluation of the returned shape on the same grid
+        tb, ob = eom.wallThicknessBounds, eom.wallOffsetBounds
+        clipped = (np.any(w2 > 0.9 * tb[1] / Tn) or np.any(w2 < 1.1 * tb[0] / Tn)
+                   or np.any(o2 > 0.9 * ob[1]) or np.any(o2 < 1.1 * ob[0]))
+        if clipped or not (np.all(np.isfinite(w2)) and np.all(np.isfinite(o2))):
+            v.label("step:returned-shape-at-solver-bounds")
+        else:
+            wp_ret = WallGo.WallParams(widths=w2.copy(), offsets=o2.copy())
+            res0 = eom._intermediatePressureResults(wp_ret, WallGo.Fields(vl), WallGo.Fields(vh), -1.0, 1.0, vmid,
+                                                    zero_boltzmann(eom), T, T, multiplier=0, **kw)
+            p0 = float(res0[0])
+            v.checked("step-consistency")
+            if not np.isfinite(p_step) or abs(p_step - p0) > floor:
+                v.fail("step-consistency", cls,
+                       f"one step with multiplier={mult:g} from widths*T={shape['w']} offsets={shape['off']} returned "
+                       f"pressure {p_step!r} together with widths*T={(w2 * T).tolist()} offsets={o2.tolist()}, but the "
+                       f"pressure of exactly that shape on the same grid (multiplier=0) is {p0!r}; "
+                       f"V_low-V_high={exact!r}: |p_step-exact|/S={err / S:.3e}, |p_0-exact|/S={abs(p0 - exact) / S:.3e}",
+                       p_step=p_step, p0=p0, exact=exact)
+        # (b) absolute identity where the returned wall lies inside the wall region of the current grid
+        eta = M * float(w2.min()) / Lu
+        in_domain = float(w2.max() / w2.min()) <= 3.0 and float(np.max(np.abs(o2))) <= 2.0
+        if rc <= 1.0 and not (in_domain and ENV_A_STEP - ENV_B * eta < 0):
+            v.label("step:returned-shape-unresolved-or-outside-domain")
+        elif rc <= 1.0:
+            tol = min(1.0, 10.0 ** (ENV_A_STEP - ENV_B * eta) + TAIL_C * (40.0 / M) ** TAIL_P) * S + floor
+            v.checked("step-pressure")
+            if not np.isfinite(p_step) or err > tol:
+                v.fail("step-pressure", cls,
+                       f"step pressure {p_step!r} vs V_low-V_high {exact!r}: |err|/S={err / S:.3e} > {tol / S:.3e} "
+                       f"(eta_eff={eta:.1f}, returned wall inside the grid's wall region) from widths*T={shape['w']} "
+                       f"offsets={shape['off']} to widths*T={(w2 * T).tolist()} offsets={o2.tolist()}",
+                       p_step=p_step, exact=exact)
+
+
+
 # ---------------------------------------------------------------------------
 # (i) fixed uniform profiles
 # ---------------------------------------------------------------------------
@@ -350,6 +448,8 @@ def check_fixed(case, v: Verdict):
                 v.fail("fixed-shape-kept", cls,
                        f"multiplier=0 changed the wall: widths {np.asarray(wp2.widths).tolist()} vs "
                        f"{widths.tolist()}, offsets {np.asarray(wp2.offsets).tolist()} vs {offs.tolist()}")
+        if case["shapes"].index(shape) < STEP_SHAPES:
+            _check_step(v, eoms, case, shape, fam, model, cf, vl, vh, T, exact, widths, offs)
         for M1, M2 in ((40, 80), (60, 120)):
             if M1 in errs and M2 in errs:
                 v.checked("fixed-convergence")
